@@ -2,11 +2,11 @@
 import os
 import random
 
-from . import streams_metric, cli, meshgen, pyio
+from . import streams_metric, streams_smoothinterp, cli, meshgen, pyio
 from .common import Stream
 
 ID = 'C05'
-PROPS_MODULE = ['Refine.Props.C05']
+PROPS_MODULE = ['Refine.Props.C05', 'Refine.Props.C05Smooth']
 
 
 # ---- regression for the defect repaired in /repo e210980 (known_findings: ref_metric_interpolate:tri-face-id-as-fourth-vertex):
@@ -93,7 +93,8 @@ ADAPT_LOGLIN = Stream('cli_adapt_loglin', cli.cli_harness, None, gen_adapt_logli
 ADAPT_LOGLIN_MPI = Stream('cli_adapt_loglin_mpi', cli.cli_harness, None, gen_adapt_loglin, oracle=oracle_adapt_loglin,
                           kind='oracle', np=[2, 4], nontrivial=lambda op, out: out.startswith('rc=0'), timeout=1800)
 
-STREAMS = [streams_metric.INTERP_KERNEL, streams_metric.INTERP_GRID, cli.ADAPT_METRIC, ADAPT_BIGID_MPI, ADAPT_LOGLIN, ADAPT_LOGLIN_MPI]
+STREAMS = [streams_metric.INTERP_KERNEL, streams_metric.INTERP_GRID, cli.ADAPT_METRIC, ADAPT_BIGID_MPI, ADAPT_LOGLIN, ADAPT_LOGLIN_MPI] + \
+          list(streams_smoothinterp.STREAMS)
 
 EXPLANATION = (
     'Proved in Lean over the reals, about the executable model (Refine/Model/Metric.lean: interpolateNode = '
